@@ -1,5 +1,5 @@
-(* RtTheoremsFinal.v — C01 and C02 for parsed, accepted, closed programs with NO further premise, in the
-   two polarized modes: the forest invariant Topo holds along every run (proofs/DeterminismAll.v
+(* RtTheoremsFinal.v — C01 (three modes) and C02 (polarized modes) for parsed, accepted, closed programs
+   with NO further premise; non-polarized mode: proofs/TopoNP.v; polarized modes: the forest invariant Topo holds along every run (proofs/DeterminismAll.v
    `topo_runs_all`, for sources that pass `all_src_b`) and `all_src_b` holds of every parsed accepted
    program (proofs/SrcAll.v).  The statements with the premises spelled out are kept in
    proofs/RtTheoremsTc.v. *)
@@ -9,7 +9,7 @@ Require Import Grits.Base Grits.ModeDefs Grits.Modes Grits.STypes Grits.Forms Gr
                Grits.Runtime Grits.spec.RtTyping Grits.spec.Topo Grits.proofs.RtSubst Grits.proofs.RtEffect
                Grits.proofs.StepErrors Grits.proofs.RtSafety Grits.proofs.RtInit Grits.proofs.RtProgress
                Grits.proofs.RtTheorems Grits.proofs.RtTcSyn Grits.proofs.RtTcBisim Grits.proofs.RtTheoremsTc
-               Grits.proofs.DeterminismAll Grits.proofs.SrcAll.
+               Grits.proofs.DeterminismAll Grits.proofs.SrcAll Grits.proofs.TopoNP.
 
 (* with the source test as premise (any accepted closed program given as text) *)
 Theorem safety_src_partial txt p p' md :
@@ -75,4 +75,29 @@ Theorem progress_sync_run_parsed txt p p' :
                 exists o, obj_in c o /\ k ∈ refs o) -> procs c = ∅).
 Proof.
   intros Hp Ha Hf. exact (progress_sync_run_parsed_partial txt p p' Hp Ha Hf (topo_runs_parsed txt p p' Hp Ha Hf)).
+Qed.
+
+(* C01, the statement aimed at (`safety_statement` of proofs/RtTheorems.v): the three execution modes *)
+Theorem safety_all_modes_parsed txt p p' md :
+  parse_string txt = POk p -> typecheck p = Accept p' -> in_fragment p' ->
+  forall fuel pick c who e,
+    exec_run fuel pick md (p_types p') (p_funs p') (init_config p') <> RError c who e.
+Proof.
+  intros Hp Ha Hf. destruct (is_np md) eqn:Hnp.
+  - destruct md; try discriminate Hnp. exact (safety_np_parsed txt p p' Hp Ha Hf).
+  - exact (safety_parsed txt p p' md Hp Ha Hf Hnp).
+Qed.
+
+(* every configuration reachable in the non-polarized mode is typed and satisfies Topo *)
+Theorem reachable_typed_np_parsed txt p p' c :
+  parse_string txt = POk p -> typecheck p = Accept p' -> in_fragment p' ->
+  reachable (p_types p') (p_funs p') NP (init_config p') c ->
+  (exists Δ, init_delta p' ⊆ Δ /\ cfg_typed (p_types p') (p_funs p') (teq_rt (p_types p')) Δ c) /\ Topo c.
+Proof.
+  intros Hp Ha Hf Hr. pose proof (topo_runs_np_parsed txt p p' Hp Ha Hf) as Ht.
+  pose proof (tc_annotations_typed_parsed txt p p' Hp Ha Hf) as Hst.
+  split; [|exact (Ht c Hr)].
+  apply (RtSafetyNP.reachable_typed_np (p_types p') (p_funs p') (teq_rt (p_types p')) (teq_rt_laws _) (proj1 Hst)
+           (init_delta p') (init_config p') c (initial_typed _ p' (teq_rt_laws _) Hst)); auto.
+  intros c1 Hr1. apply RtSafetyNP.topo_closed_unused_np. exact (Ht c1 Hr1).
 Qed.
